@@ -76,6 +76,15 @@ theorem C04_no_dispose_under_preexisting_reader (b : Bool) (n c bc : Nat) (s : R
     all_goals (rename_i q hpc; rw [hpc]; simp only [RCU.disposing]; grind [upd])
   exact RCU.invQ_disposing hI.A hI.Q t p hdisp
 
+/-- The epoch-tag lemma behind the buffered case: while a synchronizer that obtained epoch `w.e` from its fetch_add
+    still holds the mutex, every tagged pointer (in the buffer or about to be pushed) whose tag is at most `w.e`
+    was retired - `retire_ptr` was invoked - before that fetch_add, hence before the first flip. -/
+theorem C04_epoch_tag (b : Bool) (n c bc : Nat) (s : RCU.St) (h : RCU.model.Reachable (RCU.init b n c bc) s)
+    (t : Tid) (w : RCU.W) (hw : RCU.wOf (s.pc t) = some w) (hh : RCU.holding (s.pc t) = true)
+    (hb : s.buffered = true) (q : RCU.Obj) (tag : Nat) (hi : RCU.Item s q tag) (ht : tag ≤ w.e) :
+    ∃ r, s.retiredAt q = some r ∧ r < s.faddClock :=
+  RCU.epoch_tag_lemma (RCU.inv_reachable b n c bc s h).T t w hw hh hb q tag hi ht
+
 /-- State form of the same fact: a thread whose next step is a disposal of `p` sees `p` quiescent. -/
 theorem C04_about_to_dispose_quiescent (b : Bool) (n c bc : Nat) (s : RCU.St)
     (h : RCU.model.Reachable (RCU.init b n c bc) s) (t : Tid) (p : RCU.Obj) (hd : RCU.disposing (s.pc t) = some p) :
@@ -130,6 +139,25 @@ example : ∃ s os, RCU.model.run (RCU.init false 2 1 2)
      (0, .step), (0, .step), (0, .ret)] = some (s, os)
     ∧ s.pc 0 = .idle ∧ s.secStart 1 = none ∧ s.disposed 7 = 1 ∧ s.locked = none := by
   refine ⟨_, _, rfl, ?_, ?_, ?_, ?_⟩ <;> decide
+
+/-- Why there are two rounds.  Thread 1 loads the global phase between the two flips of a first synchronize and
+    completes access_lock after it (phase bit = true, stale).  A second synchronize acquires the mutex while thread 1
+    is inside (`mustWait 1 = secStart 1 = some 17`); its FIRST flip_and_wait passes thread 1 (phases agree), so after
+    one round the pre-existing reader is still inside ... -/
+example : ∃ s os, RCU.model.run (RCU.init false 2 1 1)
+    ([(0, .invoke ⟨"synchronize", [0]⟩), (0, .step), (0, .step),
+      (1, .invoke ⟨"rlock", [1]⟩), (1, .step), (1, .step)] ++ List.replicate 10 (0, .step) ++
+     [(0, .ret), (1, .step), (1, .ret), (0, .invoke ⟨"synchronize", [0]⟩)] ++ List.replicate 6 (0, .step)) = some (s, os)
+    ∧ s.pc 0 = .flip ⟨[], 0⟩ true ∧ s.mustWait 1 = some 17 ∧ s.secStart 1 = some 17 ∧ s.ctl 1 = ⟨1, true⟩ := by
+  refine ⟨_, _, rfl, ?_, ?_, ?_, ?_⟩ <;> decide
+
+/-- ... and the SECOND flip_and_wait spins on it. -/
+example : ∃ s os, RCU.model.run (RCU.init false 2 1 1)
+    ([(0, .invoke ⟨"synchronize", [0]⟩), (0, .step), (0, .step),
+      (1, .invoke ⟨"rlock", [1]⟩), (1, .step), (1, .step)] ++ List.replicate 10 (0, .step) ++
+     [(0, .ret), (1, .step), (1, .ret), (0, .invoke ⟨"synchronize", [0]⟩)] ++ List.replicate 15 (0, .step)) = some (s, os)
+    ∧ s.pc 0 = .waitLd ⟨[], 0⟩ true 1 ∧ s.secStart 1 = some 17 := by
+  refine ⟨_, _, rfl, ?_, ?_⟩ <;> decide
 
 /-- Nesting depth 2: the inner unlock keeps the section (and its start clock) open, the outer one closes it. -/
 example : ∃ s os, RCU.model.run (RCU.init true 1 4 4)
